@@ -222,6 +222,13 @@ func (P *Program) RunJob(job *Job) *JobResult {
 					}
 				}
 				stop := false
+				if pr.Status == StViolation && lim.MaxViolations > 0 && res.Counts[StViolation] >= lim.MaxViolations {
+					stop = true
+					res.StoppedOnViolations = true
+					if res.Incomplete == "" {
+						res.Incomplete = fmt.Sprintf("stopped after %d violating paths", res.Counts[StViolation])
+					}
+				}
 				if pr.Status == StViolation && lim.StopOnFirst {
 					stop = true
 					res.Incomplete = "stopped at first violation"
